@@ -117,6 +117,18 @@ impl<'t, 'a, 'g> Gen<'t, 'a, 'g> {
         }
         let v = vs[self.tape.below(vs.len())].clone();
         let d = self.cfg.max_depth.min(2);
+        // the new value of a string/array/object variable never depends on such variables
+        // (accumulation like `s = s + s` inside nested loops grows exponentially)
+        let saved_no_big = self.no_big_vars;
+        if !matches!(v.ty, Ty::Num | Ty::Bool | Ty::Nul) {
+            self.no_big_vars = true;
+        }
+        let out = self.stmt_assign_to(&v, d, i);
+        self.no_big_vars = saved_no_big;
+        out
+    }
+
+    fn stmt_assign_to(&mut self, v: &super::Var, d: usize, i: usize) -> String {
         match (&v.ty, self.tape.below(4)) {
             (Ty::Num, 0) | (Ty::Num, 1) => {
                 // no `**=`: exponentiation of arbitrary operands is implementation-approximated
@@ -999,8 +1011,9 @@ impl<'t, 'a, 'g> Gen<'t, 'a, 'g> {
         let mut body = vec![];
         for k in 0..n {
             let e = self.expr(&Ty::Num, 1);
+            let in_block_ok = !(self.cfg.self_contained && self.gated("C14:gen-yield-in-block"));
             match self.tape.below(5) {
-                0 => {
+                0 if in_block_ok => {
                     self.tag("gen:yield-in-loop");
                     body.push(format!("{}for (let j = 0; j < 2; j++) {{ yield {} + j; }}", ind(i + 1), e));
                 }
@@ -1012,7 +1025,7 @@ impl<'t, 'a, 'g> Gen<'t, 'a, 'g> {
                     self.tag("gen:yield-receives-value");
                     body.push(format!("{}const r{} = yield {}; __t({}, r{});", ind(i + 1), k, e, { let id = self.trace_id; self.trace_id += 1; id }, k));
                 }
-                3 if !self.gated("gen-finally-on-early-exit") => {
+                3 if in_block_ok && !self.gated("gen-finally-on-early-exit") => {
                     self.tag("gen:yield-in-try-finally");
                     body.push(format!("{}try {{ yield {}; }} finally {{ __t({}, \"fin\"); }}", ind(i + 1), e, { let id = self.trace_id; self.trace_id += 1; id }));
                 }
